@@ -202,6 +202,13 @@ macro_rules! imp {
                     match a[0] { "0" => m.vi_swaps = Some(p), "1" => m.vi_positions = Some(p), _ => return None }
                     Some("ok".into())
                 }
+                "setclock" => {
+                    if a.len() != 2 { return None; }
+                    let v: u64 = a[1].parse().ok()?;
+                    let k = match a[0] { "0" => ClockKind::PriceImpactDistribution, "1" => ClockKind::Borrowing, "2" => ClockKind::Funding, _ => return None };
+                    m.clocks.insert(k, v);
+                    Some("ok".into())
+                }
                 "dist" => {
                     if !a.is_empty() { return None; }
                     Some(match m.distribute_position_impact().and_then(|x| x.execute()) {
